@@ -220,6 +220,18 @@ def build_response(scn, rec, cfg=None):
         measures["count"] = _measure(flat["counts"], scn)
     if scn.get("squared_weights"):
         measures["weighted_squared_count"] = _measure(flat["w2"], scn)
+    fov = rec.get("flatov")
+    if scn.get("overlaps") and isinstance(fov, dict) and "ov" in fov:
+        d = scn["dims"][-1]
+        meta = {"derived": True,
+                "references": {"subreferences": [{"alias": _item_alias(d, p), "name": _item_name(d, p)}
+                                                 for p in range(1, d["n"] + 1)]},
+                "type": {"class": "numeric", "integer": True, "missing_rules": {},
+                         "missing_reasons": {"No Data": -1},
+                         "subvariables": [_item_subvar_id(d, p) for p in range(1, d["n"] + 1)]}}
+        measures["overlap"] = {"data": list(fov["ov"]), "metadata": meta, "n_missing": 0}
+        measures["valid_overlap"] = {"data": list(fov["vov"]), "metadata": copy.deepcopy(meta),
+                                     "n_missing": 0}
     flaty = rec.get("flaty")
     if flaty:
         for name in scn.get("ymeasures", ()):
